@@ -1,4 +1,6 @@
-"""Program sources shared by several checks (until Syntax.tla supplies generated programs everywhere)."""
+"""Program sources shared by several checks: the repository's own test snippets (inputs only) and programs derived
+from Syntax.tla by SyntaxGen.tla (sampled derivations under the random layout, every short access chain, programs
+ending in __halt_compiler)."""
 import json
 import os
 import random
@@ -24,3 +26,32 @@ def clean_programs(tier, check=None):
             for ver in vers:
                 out.append({"src": src, "ver": ver})
     return out
+
+
+_gen_cache = {}
+
+
+def programs(check, tier, n=None):
+    """corpus + generated programs; each {"src", "ver"}.  Derivations using the empty heredoc (known finding D6: the
+    scanner may panic on it under >= 7.3) are left out, so that users of this list see only clean parses."""
+    from . import syntax, progs
+    n = n or (400 if tier == "quick" else 3000)
+    key = (tier, n, core.seed())
+    if key not in _gen_cache:
+        out = []
+        for family in ("7", "5"):
+            table, behs = syntax.generate(check, family, num=n, seed=core.seed() + 31, depth=3)
+            t0, _ = table, None
+            tc, bc = syntax.generate(check, family, rootcat="stmt", rootmax=1, depth=4,
+                                     allowed=progs.chain_set(table, ("both", "7", "7g") if family == "7" else ("both", "5")),
+                                     exhaustive=True, maxchoices=5 if tier == "quick" else 6, timeout=2400)
+            th, bh = syntax.generate(check, family, rootcat="toplast", rootmax=1, num=20, seed=core.seed() + 9, depth=2)
+            for tab, bs, lay in ((table, behs, "random"), (tc, bc, "none"), (th, bh, "random")):
+                ex = progs.expand_all(tab, bs, core.seed(), [lay])
+                for e in ex:
+                    if e.get("skip") or ({"heredoc/empty", "nowdoc/empty"} & set(e["used"])):
+                        continue
+                    for ver in progs.VERS[family][:1]:
+                        out.append({"src": e["variants"][0]["src"], "ver": ver, "used": e["used"]})
+        _gen_cache[key] = out
+    return clean_programs(tier, check) + [dict(p) for p in _gen_cache[key]]
